@@ -3,9 +3,9 @@
 N=$1; shift
 export VE_ROOT=/tmp/ve$N VE_REPO=/tmp/ve$N-repo
 for id in "$@"; do
-  c=${id%-*}; n=${id#*-}
+  c=${id%%[-r]*}; n=${id##*-}
   [ -s /verif/work/seed/$id.eval.json ] && continue
-  python3 /verif/tools/seedtool.py eval /tmp/wt-$c/out/patch$n.diff > /verif/work/seed/$id.eval.json 2>/verif/work/seed/$id.eval.err
+  python3 /verif/tools/seedtool.py eval ${SEED_WT:-/tmp/wt-}$c/out/patch$n.diff > /verif/work/seed/$id.eval.json 2>/verif/work/seed/$id.eval.err
   python3 - "$id" <<'PY'
 import json,sys
 i=sys.argv[1]
